@@ -76,7 +76,7 @@ theorem lookupTab_frame {s s' : Nat} {h h' : Heap} (hi : Inv h) (fr : Frame s h 
           | none =>
             exact ih par (fun p hp => par_mine hi m hc (by simp [parRefs, hp]) (by simp [envRefs, hp]))
         | node _ _ _ _ => rfl
-        | unit _ _ _ _ _ _ => rfl
+        | unit _ _ _ _ _ _ _ => rfl
 
 theorem symType_frame {s s' : Nat} {h h' : Heap} (hi : Inv h) (fr : Frame s h h') (hs : s ≠ 0) (hss : s' ≠ s) (f : Nat) (sy : Sym)
     (hm : ∀ r, sy.scope = some r → Mine h s' r) : symType f h' sy = symType f h sy := by
@@ -101,7 +101,7 @@ theorem renderNode_frame {s s' : Nat} {h h' : Heap} (hi : Inv h) (hu : h.unres =
     | some c =>
       cases c with
       | tab _ _ => rfl
-      | unit _ _ _ _ _ _ => rfl
+      | unit _ _ _ _ _ _ _ => rfl
       | node lbl sc syms kids =>
         simp only
         have g := (hi a s' _ (own_cell hc ha)).1 hs'
@@ -146,7 +146,7 @@ theorem render_frame {s s' : Nat} {h h' : Heap} (hi : Inv h) (hu : h.unres = fal
       cases c with
       | tab _ _ => rfl
       | node _ _ _ _ => rfl
-      | unit isMod name p t secs mems =>
+      | unit isMod name attrs p t secs mems =>
         simp only
         have g := (hi u s' _ (own_cell hc ha)).1 hs'
         rw [entsOf_frame fr hs hss (Or.inl (g.1 t (by simp [structRefs])))]
